@@ -363,7 +363,7 @@ def compare(ro, exp, fmt):
         try:
             info = ro.getinfo(p, ["details"])
             if info.is_dir != e["is_dir"] or got[p] != e["is_dir"] or ro.isdir(p) != e["is_dir"] \
-                    or ro.isfile(p) == e["is_dir"] or not ro.exists(p):
+                    or (ro.isfile(p) == e["is_dir"] and not e.get("special")) or not ro.exists(p):
                 bad("type", p, dict(getinfo=info.is_dir, walk=got[p]))
                 continue
             if info.name != p.rsplit("/", 1)[1]:
@@ -372,10 +372,16 @@ def compare(ro, exp, fmt):
             want = expected_mtime(fmt, e["t"])
             if m != want:
                 bad("mtime", p, dict(got=m, want=want, diff=None if m is None else m - want, dir=e["is_dir"]))
+            if e.get("rtype") in (1, 2) and info.raw.get("details", {}).get("type") != e["rtype"]:
+                # what the source presented as a regular file / directory comes back as one
+                bad("type", p, dict(resource_type=info.raw.get("details", {}).get("type"), want=e["rtype"]))
+                continue
             if e["is_dir"]:
                 names = ro.listdir(p)
                 if sorted(names) != sorted(children[p]):
                     bad("listdir", p, dict(got=sorted(names), want=sorted(children[p])))
+            elif e.get("special"):
+                pass            # a FIFO of the source: listed under its name, not as a directory; no bytes to compare
             else:
                 if info.size != len(e["data"]):
                     bad("size", p, dict(got=info.size, want=len(e["data"])))
@@ -403,6 +409,8 @@ def run_roundtrip(case, workdir):
     from fs.memoryfs import MemoryFS
     from fs.zipfs import ZipFS
     from fs.tarfs import TarFS
+    if case.get("host"):
+        return run_host(case, workdir)
     ref = MemoryFS()
     build_tree(ref, case["tree"])
     set_times(ref, case["tree"])
@@ -442,6 +450,10 @@ def run_roundtrip(case, workdir):
 def roundtrip_signature(case, fails):
     """One signature per case: the most fundamental discrepancy wins."""
     fam = family(case["fmt"])
+    if case.get("host"):
+        plain = dict(case)
+        plain.pop("host")
+        return "host tree " + roundtrip_signature(plain, fails)
     if case.get("kw"):
         # keyword cases: "<family> <callable>(<parameters given>)"; the compression verdict does not depend
         # on which parameter was swept
@@ -486,6 +498,427 @@ def roundtrip_signature(case, fails):
     if all(f["detail"]["got"] is None for f in mt):
         return "roundtrip %s: mtime missing%s" % (fam, " on directories" if all(f["detail"]["dir"] for f in mt) else "")
     return "roundtrip %s: mtime wrong%s" % (fam, " on directories" if all(f["detail"]["dir"] for f in mt) else "")
+
+
+
+# --------------------------------------------------------------------------- trees of a real directory
+# Source trees that live on the host file system (OSFS / TempFS / SubFS of them / the temp_fs of a write-mode
+# ZipFS / TarFS, filled through its syspath) and contain what a real directory can contain next to plain files and
+# directories: several names hard-linked to one file, symbolic links to files and to directories (relative, absolute,
+# chained, non-normalised, to targets outside the tree, dangling), files and directories with unusual permission bits,
+# FIFOs.  The expectation is never derived from the writers: it is what the SOURCE filesystem itself presents through
+# listdir / getinfo / readbytes (a hard link is one more file with the same bytes; OSFS follows symbolic links, so a
+# link to a file is a file with the target's bytes and a link to a directory is a directory with the target's children;
+# a dangling link is listed but getinfo fails).
+
+HOST_COMPRESS_SOURCES = ["OSFS", "TempFS", "SubFS(OSFS)", "SubFS(TempFS)", "read_only(OSFS)"]
+HOST_FS_TEMPS = ["default temp_fs", "temp_fs=OSFS instance", "temp_fs='temp://'"]
+HOST_TIMEOUT = 20.0
+HOST_STATS = {}
+
+
+def _hs(key, n=1):
+    HOST_STATS[key] = HOST_STATS.get(key, 0) + n
+
+
+def _f(n, size, seed, t=None, mode=None):
+    nd = dict(n=n, t=1000000000 + 2 * seed if t is None else t, size=size, seed=seed)
+    if mode is not None:
+        nd["mode"] = mode
+    return nd
+
+
+def _d(n, children, t=1000000100, mode=None):
+    nd = dict(n=n, t=t, d=children)
+    if mode is not None:
+        nd["mode"] = mode
+    return nd
+
+
+def host_layouts():
+    """name -> (tree, links).  links: dict(k='hard'|'sym'|'fifo', p=<tree path of the new name>, to=<tree path>,
+    how='rel'|'abs'|'raw', raw=<target text; '{outside}' = a directory next to the tree, '{root}' = the tree's root>)."""
+    root_only = os.geteuid() == 0        # modes that take the read permission away from the owner
+    lay = {}
+    lay["hard links"] = (
+        [_d(u"pool", [_f(u"0001.bin", 65537, 1), _f(u"z", 0, 2)]), _d(u"by-name", []), _f(u"single.txt", 6, 4),
+         _d(u"deep", [_d(u"a", [_d(u"b", [_f(u"x", 17, 5)])])])],
+        [dict(k="hard", p=u"/by-name/payload.bin", to=u"/pool/0001.bin"),
+         dict(k="hard", p=u"/pool/0001.copy", to=u"/pool/0001.bin"),
+         dict(k="hard", p=u"/zlink", to=u"/pool/z"),
+         dict(k="hard", p=u"/deep/a/up", to=u"/single.txt"),
+         dict(k="hard", p=u"/by-name/é 日", to=u"/deep/a/b/x"),
+         dict(k="hard", p=u"/0", to=u"/deep/a/b/x")])
+    lay["symbolic links to files"] = (
+        [_d(u"d", [_d(u"sub", [_f(u"t.txt", 6, 7)]), _f(u"other", 255, 8)]), _f(u"top.bin", 4096, 9)],
+        [dict(k="sym", p=u"/rel", to=u"/d/sub/t.txt", how="rel"),
+         dict(k="sym", p=u"/abs", to=u"/d/sub/t.txt", how="abs"),
+         dict(k="sym", p=u"/d/up", to=u"/top.bin", how="rel"),
+         dict(k="sym", p=u"/d/sub/up2", to=u"/top.bin", how="rel"),
+         dict(k="sym", p=u"/chain", to=u"/rel", how="rel"),
+         dict(k="hard", p=u"/d/hl", to=u"/top.bin"),
+         dict(k="sym", p=u"/to_hl", to=u"/d/hl", how="abs"),
+         dict(k="sym", p=u"/ sp ace ", to=u"/d/other", how="rel"),
+         dict(k="sym", p=u"/odd", how="raw", raw=u"./d/../d//other"),
+         dict(k="sym", p=u"/d/sub/self", how="raw", raw=u"t.txt")])
+    lay["symbolic links to directories"] = (
+        [_d(u"d", [_d(u"sub", [_f(u"t.txt", 6, 7), _d(u"e", [])]), _f(u"f2", 2, 3)]), _d(u"k", [_f(u"f", 1, 1)])],
+        [dict(k="sym", p=u"/dl_rel", to=u"/d/sub", how="rel"),
+         dict(k="sym", p=u"/dl_abs", to=u"/d/sub", how="abs"),
+         dict(k="sym", p=u"/k/side", to=u"/d", how="rel"),
+         dict(k="sym", p=u"/empty_link", to=u"/d/sub/e", how="rel"),
+         dict(k="sym", p=u"/dl2", to=u"/dl_rel", how="rel"),
+         dict(k="sym", p=u"/dots", how="raw", raw=u"k/../d/sub/.")])
+    modes = [_f(u"r--", 5, 1, mode=0o444), _f(u"rw-------", 5, 2, mode=0o600), _f(u"rwxr-xr-x", 5, 3, mode=0o755),
+             _f(u"setuid", 5, 4, mode=0o4755), _f(u"setgid", 0, 5, mode=0o2644), _f(u"sticky", 5, 6, mode=0o1644),
+             _f(u"rwxrwxrwx", 300, 7, mode=0o777), _f(u"r-only-group", 5, 8, mode=0o440),
+             _d(u"dir555", [_f(u"in", 3, 9, mode=0o400)], mode=0o555), _d(u"dir700", [], mode=0o700),
+             _d(u"dir1777", [_f(u"t", 1, 1)], mode=0o1777)]
+    if root_only:
+        modes += [_f(u"none", 6, 10, mode=0o000), _f(u"write-only", 6, 11, mode=0o200), _f(u"exec-only", 6, 12, mode=0o111),
+                  _d(u"dir000", [_f(u"hidden", 4, 13)], mode=0o000)]
+    lay["permission bits"] = (modes, [dict(k="hard", p=u"/setuid.again", to=u"/setuid"),
+                                      dict(k="sym", p=u"/to444", to=u"/r--", how="rel")])
+    lay["links leaving the tree"] = (
+        [_d(u"d", [_f(u"in", 3, 1)]), _f(u"plain", 9, 2)],
+        [dict(k="sym", p=u"/out_file", how="raw", raw=u"{outside}/outside.txt"),
+         dict(k="sym", p=u"/d/out_dir", how="raw", raw=u"{outside}/outside_dir"),
+         dict(k="sym", p=u"/via_root", how="raw", raw=u"{root}/d/in")])
+    lay["dangling links"] = (
+        [_d(u"d", [_f(u"in", 3, 1)]), _f(u"plain", 9, 2)],
+        [dict(k="sym", p=u"/d/dangling", how="raw", raw=u"nowhere"),
+         dict(k="sym", p=u"/dangling_abs", how="raw", raw=u"{outside}/missing")])
+    lay["fifo"] = (
+        [_d(u"d", [_f(u"in", 3, 1)]), _f(u"plain", 9, 2)],
+        [dict(k="fifo", p=u"/pipe"), dict(k="fifo", p=u"/d/pipe2")])
+    everything = ([], [])
+    for key in ("hard links", "symbolic links to files", "permission bits"):
+        sub = u"m%d" % len(everything[0])
+        everything[0].append(_d(sub, lay[key][0]))
+        for ln in lay[key][1]:
+            ln = dict(ln, p=u"/" + sub + ln["p"])
+            if "to" in ln:
+                ln["to"] = u"/" + sub + ln["to"]
+            if ln.get("how") == "raw":
+                continue
+            everything[1].append(ln)
+    lay["mixed"] = everything
+    return lay
+
+
+def decorate(rnd, tree):
+    """Random extra names for a generated tree: hard links and symbolic links to its files, symbolic links to its
+    directories (never to an ancestor of the link: no cycles), in random directories."""
+    import posixpath
+    files, dirs = [], [u"/"]
+
+    def go(nodes, base):
+        for nd in nodes:
+            p = base.rstrip(u"/") + u"/" + nd["n"]
+            if "d" in nd:
+                dirs.append(p)
+                go(nd["d"], p)
+            else:
+                files.append(p)
+    go(tree, u"/")
+    links = []
+    taken = set(files) | set(dirs)
+    for i in range(rnd.randint(2, 6)):
+        where = rnd.choice(dirs)
+        name = rnd.choice([u"ln%d" % i, u"ü%d" % i, u" l %d" % i, u"-l%d" % i])
+        p = where.rstrip(u"/") + u"/" + name
+        if p in taken:
+            continue
+        r = rnd.random()
+        if files and r < 0.45:
+            links.append(dict(k="hard", p=p, to=rnd.choice(files)))
+        elif files and r < 0.8:
+            links.append(dict(k="sym", p=p, to=rnd.choice(files), how=rnd.choice(["rel", "abs"])))
+        else:
+            cands = [d for d in dirs[1:] if not (where + u"/").startswith(d + u"/") and where != d]
+            if not cands:
+                continue
+            links.append(dict(k="sym", p=p, to=rnd.choice(cands), how=rnd.choice(["rel", "abs"])))
+        taken.add(p)
+    return links
+
+
+def build_host(root, tree, links, outside):
+    """Create tree + links below the directory `root` with os.* calls; returns the FIFOs created."""
+    import posixpath
+
+    def sysp(tp):
+        return root if tp in (u"", u"/") else os.path.join(root, *tp.strip(u"/").split(u"/"))
+
+    def mk(nodes, base):
+        for nd in nodes:
+            p = base.rstrip(u"/") + u"/" + nd["n"]
+            if "d" in nd:
+                os.mkdir(sysp(p))
+                mk(nd["d"], p)
+            else:
+                with open(sysp(p), "wb") as fh:
+                    fh.write(content(nd["size"], nd["seed"]))
+    mk(tree, u"/")
+    fifos = []
+    for ln in links:
+        new = sysp(ln["p"])
+        if not os.path.isdir(os.path.dirname(new)) or os.path.lexists(new):
+            continue                    # (a shrunk tree may have lost the place of a link)
+        if ln["k"] == "hard":
+            if os.path.isfile(sysp(ln["to"])):
+                os.link(sysp(ln["to"]), new)
+                _hs("hard-linked names created (st_nlink = %s)" % ("2" if os.stat(new).st_nlink == 2 else "3+"))
+            continue
+        if ln["k"] == "fifo":
+            os.mkfifo(new)
+            fifos.append(new)
+            _hs("FIFOs created")
+            continue
+        if ln["how"] == "raw":
+            os.symlink(ln["raw"].replace(u"{outside}", outside).replace(u"{root}", root), new)
+        elif not os.path.lexists(sysp(ln["to"])):
+            continue
+        elif ln["how"] == "abs":
+            os.symlink(sysp(ln["to"]), new)
+        else:
+            os.symlink(posixpath.relpath(ln["to"], posixpath.dirname(ln["p"])), new)
+        _hs("symbolic links created: %s, %s" % (
+            "absolute" if os.readlink(new).startswith(u"/") else "relative",
+            "dangling" if not os.path.exists(new) else "to a directory" if os.path.isdir(new) else "to a file"))
+
+    def finish(nodes, base):
+        for nd in nodes:
+            p = base.rstrip(u"/") + u"/" + nd["n"]
+            if "d" in nd:
+                finish(nd["d"], p)
+            os.utime(sysp(p), (nd["t"], nd["t"]))
+            if "mode" in nd:
+                os.chmod(sysp(p), nd["mode"])
+                _hs("entries with explicit permission bits")
+    finish(tree, u"/")
+    return fifos
+
+
+class FifoFeeder(object):
+    """While active, every open-for-reading of one of the FIFOs meets a writer that closes at once: reading a FIFO
+    of the tree gives end of file instead of blocking forever."""
+
+    def __init__(self, paths):
+        self.paths = paths
+        self.thread = None
+
+    def __enter__(self):
+        import threading
+        if self.paths:
+            self.stop = threading.Event()
+            self.thread = threading.Thread(target=self.loop)
+            self.thread.daemon = True
+            self.thread.start()
+        return self
+
+    def loop(self):
+        while not self.stop.is_set():
+            for p in self.paths:
+                try:
+                    os.close(os.open(p, os.O_WRONLY | os.O_NONBLOCK))
+                except OSError:
+                    pass
+            self.stop.wait(0.002)
+
+    def __exit__(self, *a):
+        if self.thread is not None:
+            self.stop.set()
+            self.thread.join()
+
+
+def host_expected(src):
+    """path -> what the source filesystem presents (listdir + getinfo + readbytes, top down); also the set of
+    names that are listed but cannot be stat'ed (dangling links)."""
+    import fs.errors
+    from fs.enums import ResourceType
+    exp, dangling = {}, set()
+
+    def go(d):
+        for name in src.listdir(d):
+            p = d.rstrip(u"/") + u"/" + name
+            try:
+                info = src.getinfo(p, ["details"])
+            except fs.errors.ResourceNotFound:
+                dangling.add(p)
+                continue
+            raw = info.raw["details"]
+            rtype = raw.get("type")
+            special = not info.is_dir and rtype != int(ResourceType.file)
+            exp[p] = dict(is_dir=info.is_dir, t=raw["modified"], rtype=rtype, special=special,
+                          data=None if info.is_dir or special else src.readbytes(p))
+            if info.is_dir:
+                go(p)
+    go(u"/")
+    return exp, dangling
+
+
+def host_cleanup(path):
+    import subprocess
+    try:
+        shutil.rmtree(path)
+    except Exception:  # noqa
+        subprocess.call(["chmod", "-R", "u+rwX", "--", path])
+        common.rm_rf(path)
+
+
+def run_host(case, workdir):
+    """case: dict(tree, host=dict(source, links, layout), fmt, target, route).  Returns failure dicts."""
+    import fs.wrap
+    from fs import compress
+    from fs.osfs import OSFS
+    from fs.tempfs import TempFS
+    from fs.zipfs import ZipFS
+    from fs.tarfs import TarFS
+    host = case["host"]
+    fam = family(case["fmt"])
+    fmt = case["fmt"]
+    if fam == "zip":
+        comp, ext = (zipfile.ZIP_STORED if fmt == "zip-stored" else zipfile.ZIP_DEFLATED), ".zip"
+    else:
+        comp, ext = {"tar": None, "tar.gz": "gz", "tar.bz2": "bz2", "tar.xz": "xz"}[fmt], "." + fmt
+    scratch = tempfile.mkdtemp(prefix="host_", dir=workdir)
+    outside = os.path.join(scratch, "outside")
+    os.makedirs(os.path.join(outside, "outside_dir"))
+    with open(os.path.join(outside, "outside.txt"), "wb") as fh:
+        fh.write(b"outside the tree")
+    with open(os.path.join(outside, "outside_dir", "inner"), "wb") as fh:
+        fh.write(b"inner")
+    for pth in (os.path.join(outside, "outside.txt"), os.path.join(outside, "outside_dir", "inner"),
+                os.path.join(outside, "outside_dir")):
+        os.utime(pth, (1000000040, 1000000040))
+    tgt = os.path.join(scratch, u"out" + ext) if case["target"] == "path" else io.BytesIO()
+    closers = []
+    fails = []
+    ro = None
+    try:
+        with watchdog(HOST_TIMEOUT):
+            try:
+                # ---- the source filesystem and the directory behind it
+                if case["route"] == "compress":
+                    kind = host["source"]
+                    if kind in ("OSFS", "read_only(OSFS)"):
+                        os.mkdir(os.path.join(scratch, "root"))
+                        src = OSFS(os.path.join(scratch, "root"))
+                        closers.append(src)
+                        if kind != "OSFS":
+                            src = fs.wrap.read_only(src)
+                    elif kind == "TempFS":
+                        src = TempFS()
+                        closers.append(src)
+                    else:
+                        if kind == "SubFS(OSFS)":
+                            os.mkdir(os.path.join(scratch, "parent"))
+                            parent = OSFS(os.path.join(scratch, "parent"))
+                        else:
+                            parent = TempFS()
+                        closers.append(parent)
+                        parent.makedirs(u"top/sub")
+                        parent.makedirs(u"top/sub2/decoy")
+                        parent.writebytes(u"top/canary", b"canary")
+                        parent.writebytes(u"top/sub2/decoy/f", b"decoy")
+                        src = parent.opendir(u"top/sub")
+                else:
+                    kw = {}
+                    if host["source"] == "temp_fs=OSFS instance":
+                        os.mkdir(os.path.join(scratch, "root"))
+                        kw["temp_fs"] = OSFS(os.path.join(scratch, "root"))
+                    elif host["source"] == "temp_fs='temp://'":
+                        kw["temp_fs"] = "temp://"
+                    if fam == "zip":
+                        src = ZipFS(tgt, write=True, compression=comp, **kw)
+                    elif case["target"] == "path":
+                        src = TarFS(tgt, write=True, **kw)
+                    else:
+                        src = TarFS(tgt, write=True, compression=comp, **kw)
+                    closers.append(src)
+                root = src.getsyspath(u"/")
+                fifos = build_host(root, case["tree"], host["links"], outside)
+                exp, dangling = host_expected(src)
+                _hs("paths presented by the sources", len(exp))
+                _hs("names listed but not describable (dangling)", len(dangling))
+            except Exception as e:  # noqa
+                return [dict(kind="exception", path="<source>", detail=common.exc_name(e) + ": " + str(e)[:200])]
+            # ---- write
+            try:
+                with FifoFeeder(fifos):
+                    if case["route"] == "compress":
+                        if fam == "zip":
+                            compress.write_zip(src, tgt, compression=comp)
+                        else:
+                            compress.write_tar(src, tgt, compression=comp)
+                    else:
+                        closers.remove(src)
+                        src.close()
+            except Exception as e:  # noqa
+                if dangling:
+                    _hs("writes refused for a tree with dangling links")
+                    return []           # the source itself cannot describe every name: refusing is an answer
+                return [dict(kind="exception", path="<write>", detail=common.exc_name(e) + ": " + str(e)[:200])]
+            if case["target"] == "bytesio":
+                tgt.seek(0)
+            try:
+                ro = ZipFS(tgt) if fam == "zip" else TarFS(tgt)
+            except Exception as e:  # noqa
+                return [dict(kind="exception", path="<open>", detail=common.exc_name(e) + ": " + str(e)[:200])]
+            fails = compare(ro, exp, fmt)
+            if dangling:
+                # names the source lists but cannot describe: may be left out or kept, nothing else may change
+                def about_dangling(f):
+                    if f["path"] in dangling:
+                        return True
+                    if f["kind"] == "listdir" and isinstance(f["detail"], dict):
+                        odd = set(f["detail"]["got"]) ^ set(f["detail"]["want"])
+                        return all((f["path"].rstrip(u"/") + u"/" + n) in dangling for n in odd)
+                    return False
+                fails = [f for f in fails if not about_dangling(f)]
+    except Hang:
+        fails = [dict(kind="exception", path="<write>", detail="crash:Hang: no answer within %d s" % HOST_TIMEOUT)]
+    finally:
+        for c in [ro] + closers[::-1]:
+            try:
+                if c is not None:
+                    c.close()
+            except Exception:  # noqa
+                pass
+        host_cleanup(scratch)
+    off = local_offset()
+    for f in fails:
+        f["utc_offset"] = off
+    return fails
+
+
+def explore_host(rnd, thorough):
+    cases = []
+    lay = host_layouts()
+    routes = [("compress", s) for s in HOST_COMPRESS_SOURCES] + [("fs", s) for s in HOST_FS_TEMPS]
+    zips, tars = [f for f in FORMATS if family(f) == "zip"], [f for f in FORMATS if family(f) == "tar"]
+    for name in sorted(lay):
+        tree, links = lay[name]
+        for route, source in routes:
+            # quick tier: every layout through every route for both archive families (format of the family and
+            # target drawn from the seed; the four side layouts through half of the routes)
+            if not thorough and name in ("dangling links", "fifo", "links leaving the tree", "mixed") \
+                    and rnd.random() < 0.5:
+                continue
+            for fmt in (FORMATS if thorough else [rnd.choice(zips), rnd.choice(tars)]):
+                for target in (TARGETS if thorough else [rnd.choice(TARGETS)]):
+                    cases.append(dict(tree=tree, host=dict(source=source, links=links, layout=name), fmt=fmt,
+                                      temp="default", target=target, route=route, tz=None))
+    for i in range(60 if thorough else 10):
+        tree = gen_tree(rnd, [rnd.randint(3, 30 if thorough else 12)])
+        links = decorate(rnd, tree)
+        combos = [(f, r) for f in FORMATS for r in routes]
+        for fmt, (route, source) in (combos if thorough else
+                                     [(f, rnd.choice(routes)) for f in FORMATS] + rnd.sample(combos, 1)):
+            cases.append(dict(tree=tree, host=dict(source=source, links=links, layout="random"), fmt=fmt, temp="default",
+                              target=rnd.choice(TARGETS), route=route, tz=None))
+    return cases
 
 
 # --------------------------------------------------------------------------- keyword arguments
@@ -1405,8 +1838,9 @@ def explore(tier, seed):
         crafted.append(dict(fmt=rnd.choice(["zip", "tar"]),
                             members=[list(rnd.choice(singles)) for _i in range(rnd.randint(3, 4))]))
     kwcases, unmodelled, swept = explore_kw(rnd, thorough)
+    hostcases = explore_host(random.Random(seed * 7919 + 1515), thorough)
     return dict(roundtrips=roundtrips, crafted=crafted, kwcases=kwcases, kw_unmodelled=unmodelled, kw_swept=swept,
-                timecases=len(timecases))
+                timecases=len(timecases), hostcases=hostcases)
 
 
 def flatten(nodes):
@@ -1425,7 +1859,8 @@ def evaluate(plan, workdir, progress=False):
     canon = {}
     t0 = time.time()
     KW_STATS.clear()
-    allrt = plan["roundtrips"] + plan.get("kwcases", [])
+    HOST_STATS.clear()
+    allrt = plan["roundtrips"] + plan.get("kwcases", []) + plan.get("hostcases", [])
     for i, case in enumerate(allrt):
         fails = run_roundtrip(case, workdir)
         if fails:
@@ -1515,6 +1950,16 @@ def coverage_of(plan, failures, sigs):
         if any(len(x["n"]) > 255 for x in fl):
             h("kw_features", "has a component of more than 255 characters")
         distinct.add(json.dumps([c["tree"], kw], sort_keys=True))
+    hostc = plan.get("hostcases", [])
+    for c in hostc:
+        h("host_layout", c["host"]["layout"])
+        h("host_route_and_source", "%s: %s" % ("fs.compress.write_*" if c["route"] == "compress" else
+                                               "write-mode ZipFS/TarFS filled through getsyspath", c["host"]["source"]))
+        h("host_format", c["fmt"])
+        h("host_target", c["target"])
+        for ln in c["host"]["links"]:
+            h("host_link_kind", ln["k"] + ("" if ln["k"] != "sym" else ":" + ln["how"]))
+        distinct.add(json.dumps([c["tree"], c["host"], c["fmt"], c["target"], c["route"]], sort_keys=True))
     for s in sigs:
         hist.setdefault("failure_signatures", {})[s] = sigs[s]
     samples = []
@@ -1526,7 +1971,19 @@ def coverage_of(plan, failures, sigs):
         samples.append(dict(kind="crafted", format=c["fmt"], members=c["members"]))
     tb = [c for c in rt if any(x["t"] < T1980 or x["t"] > 4102444799 for x in flatten(c["tree"]))]
     return dict(
-        evaluations=len(rt) + len(plan["crafted"]) + len(kwc), distinct_nontrivial=len(distinct),
+        evaluations=len(rt) + len(plan["crafted"]) + len(kwc) + len(hostc), distinct_nontrivial=len(distinct),
+        host_tree_cases=len(hostc), host_tree_built=dict(HOST_STATS),
+        host_tree_rule="trees built with os.* below the directory of the source filesystem: hard-linked names (2 and 3 "
+                       "names of one file, same / other directory, empty and 64 KiB files), symbolic links to files "
+                       "and directories (relative, absolute, chained, non-normalised, leaving the tree, dangling), "
+                       "permission bits 0444..04755 / 0000 (when root) on files and directories, FIFOs (fed by a "
+                       "writer thread), random trees decorated with random links; x route {fs.compress.write_zip / "
+                       "write_tar over OSFS, TempFS, SubFS(OSFS), SubFS(TempFS), read_only(OSFS); write-mode ZipFS / "
+                       "TarFS with the default temp_fs, temp_fs=OSFS(...), temp_fs='temp://' filled through "
+                       "getsyspath} x both families (quick: one format of each family per layout x route; thorough: "
+                       "all six formats x both targets); expectation = what the source filesystem presents "
+                       "(listdir + getinfo(details) + readbytes), compared like every other round trip; a tree with "
+                       "dangling links may be refused",
         time_boundary_cases=plan.get("timecases", 0),
         time_boundaries=dict(tar=TAR_TIMES, tar_memory_temp_only=TAR_TIMES_MEM, zip=ZIP_TIMES,
                              cases_with_times_outside_1980_2099=len(tb),
